@@ -17,6 +17,7 @@ def toOpd : SX → Option Opd
     | 'r' :: ds => (String.ofList ds).toNat?.map Opd.reg
     | 'f' :: ds => (String.ofList ds).toNat?.map Opd.fn
     | 'x' :: ds => some (.ext (String.ofList ds))
+    | 'u' :: ds => (String.ofList ds).toNat?.map Opd.up
     | _ => none
   | _ => none
 
